@@ -114,12 +114,12 @@ pub trait SliceMut: Slice {
         Seq::new(self.n() as nat, |i: int| self.data.view()[widx(self.first as int, i, self.n())])
     }
 
-//@fn file=dasp_ring_buffer/src/lib.rs in="impl:<S> Fixed<S>" name=len ret=r
+//@fn file=dasp_ring_buffer/src/lib.rs in="impl:<S> Fixed<S>" name=len ret=r label=Fixed::len
 //@spec
         ensures r == self.n(),
 //@end
 
-//@fn file=dasp_ring_buffer/src/lib.rs in="impl:<S> Fixed<S>" name=push ret=r
+//@fn file=dasp_ring_buffer/src/lib.rs in="impl:<S> Fixed<S>" name=push ret=r label=Fixed::push
 //@spec
         requires old(self).wf(),
         ensures
@@ -131,7 +131,7 @@ pub trait SliceMut: Slice {
         broadcast use lemma_widx;
 //@end
 
-//@fn file=dasp_ring_buffer/src/lib.rs in="impl:<S> Fixed<S>" name=get ret=r
+//@fn file=dasp_ring_buffer/src/lib.rs in="impl:<S> Fixed<S>" name=get ret=r label=Fixed::get
 //@spec
         requires self.wf(),
         ensures *r == self.seq()[(index as int) % self.n()],
@@ -139,7 +139,7 @@ pub trait SliceMut: Slice {
         proof { lemma_widx_any(self.first as int, index as int, self.n()); }
 //@end
 
-//@fn file=dasp_ring_buffer/src/lib.rs in="impl:<S> Fixed<S>" name=get_mut ret=r
+//@fn file=dasp_ring_buffer/src/lib.rs in="impl:<S> Fixed<S>" name=get_mut ret=r label=Fixed::get_mut
 //@spec
         requires old(self).wf(),
         ensures
@@ -152,7 +152,7 @@ pub trait SliceMut: Slice {
         proof { lemma_widx_any(self.first as int, index as int, self.n()); }
 //@end
 
-//@fn file=dasp_ring_buffer/src/lib.rs in="impl:<S> Fixed<S>" name=set_first
+//@fn file=dasp_ring_buffer/src/lib.rs in="impl:<S> Fixed<S>" name=set_first label=Fixed::set_first
 //@spec
         requires old(self).wf(),
         ensures
@@ -163,7 +163,7 @@ pub trait SliceMut: Slice {
         proof { lemma_mod_bound(index as int, self.n()); }
 //@end
 
-//@fn file=dasp_ring_buffer/src/lib.rs in="impl:<S> Fixed<S>" name=slices ret=r
+//@fn file=dasp_ring_buffer/src/lib.rs in="impl:<S> Fixed<S>" name=slices ret=r label=Fixed::slices
 //@spec
         requires self.wf(),
         ensures r.0@ + r.1@ =~= self.seq(),
@@ -172,14 +172,14 @@ pub trait SliceMut: Slice {
         broadcast use lemma_widx;
 //@end
 
-//@fn file=dasp_ring_buffer/src/lib.rs in="impl:<S> Fixed<S>" name=from_raw_parts ret=r rules=R-assert
+//@fn file=dasp_ring_buffer/src/lib.rs in="impl:<S> Fixed<S>" name=from_raw_parts ret=r rules=R-assert label=Fixed::from_raw_parts
 //@spec
         ensures r.wf(), r.first == first, r.data == data,
 //@entry
         broadcast use ax_slice_len;
 //@end
 
-//@fn file=dasp_ring_buffer/src/lib.rs in="impl:<S> Fixed<S>" name=into_raw_parts ret=r
+//@fn file=dasp_ring_buffer/src/lib.rs in="impl:<S> Fixed<S>" name=into_raw_parts ret=r label=Fixed::into_raw_parts
 //@spec
         ensures r.0 == self.first, r.1 == self.data,
 //@end
@@ -233,34 +233,34 @@ pub trait SliceMut: Slice {
         Seq::new(self.len as nat, |i: int| self.data.view()[widx(self.start as int, i, self.cap())])
     }
 
-//@fn file=dasp_ring_buffer/src/lib.rs in="impl:<S> Bounded<S>" name=from_full ret=r
+//@fn file=dasp_ring_buffer/src/lib.rs in="impl:<S> Bounded<S>" name=from_full ret=r label=Bounded::from_full
 //@spec
         ensures r.wf(), r.seq() =~= data.view(), r.data == data,
 //@entry
         broadcast use lemma_widx;
 //@end
 
-//@fn file=dasp_ring_buffer/src/lib.rs in="impl:<S> Bounded<S>" name=max_len ret=r
+//@fn file=dasp_ring_buffer/src/lib.rs in="impl:<S> Bounded<S>" name=max_len ret=r label=Bounded::max_len
 //@spec
         ensures r == self.cap(),
 //@end
 
-//@fn file=dasp_ring_buffer/src/lib.rs in="impl:<S> Bounded<S>" name=len ret=r
+//@fn file=dasp_ring_buffer/src/lib.rs in="impl:<S> Bounded<S>" name=len ret=r label=Bounded::len
 //@spec
         ensures r == self.seq().len(),
 //@end
 
-//@fn file=dasp_ring_buffer/src/lib.rs in="impl:<S> Bounded<S>" name=is_empty ret=r
+//@fn file=dasp_ring_buffer/src/lib.rs in="impl:<S> Bounded<S>" name=is_empty ret=r label=Bounded::is_empty
 //@spec
         ensures r == (self.seq().len() == 0),
 //@end
 
-//@fn file=dasp_ring_buffer/src/lib.rs in="impl:<S> Bounded<S>" name=is_full ret=r
+//@fn file=dasp_ring_buffer/src/lib.rs in="impl:<S> Bounded<S>" name=is_full ret=r label=Bounded::is_full
 //@spec
         ensures r == (self.seq().len() == self.cap()),
 //@end
 
-//@fn file=dasp_ring_buffer/src/lib.rs in="impl:<S> Bounded<S>" name=slices ret=r
+//@fn file=dasp_ring_buffer/src/lib.rs in="impl:<S> Bounded<S>" name=slices ret=r label=Bounded::slices
 //@spec
         requires self.wf(),
         ensures r.0@ + r.1@ =~= self.seq(),
@@ -268,7 +268,7 @@ pub trait SliceMut: Slice {
         broadcast use lemma_widx;
 //@end
 
-//@fn file=dasp_ring_buffer/src/lib.rs in="impl:<S> Bounded<S>" name=get ret=r
+//@fn file=dasp_ring_buffer/src/lib.rs in="impl:<S> Bounded<S>" name=get ret=r label=Bounded::get
 //@spec
         requires self.wf(),
         ensures
@@ -276,9 +276,10 @@ pub trait SliceMut: Slice {
             r.is_some() ==> *r.unwrap() == self.seq()[index as int],
 //@entry
         broadcast use lemma_widx;
+        proof { if index < self.len { lemma_widx(self.start as int, index as int, self.cap()); } }
 //@end
 
-//@fn file=dasp_ring_buffer/src/lib.rs in="impl:<S> Bounded<S>" name=get_mut ret=r
+//@fn file=dasp_ring_buffer/src/lib.rs in="impl:<S> Bounded<S>" name=get_mut ret=r label=Bounded::get_mut
 //@spec
         requires old(self).wf(),
         ensures
@@ -289,9 +290,10 @@ pub trait SliceMut: Slice {
             r.is_none() ==> final(self).seq() =~= old(self).seq(),
 //@entry
         broadcast use lemma_widx;
+        proof { if index < self.len { lemma_widx(self.start as int, index as int, self.cap()); } }
 //@end
 
-//@fn file=dasp_ring_buffer/src/lib.rs in="impl:<S> Bounded<S>" name=push ret=r
+//@fn file=dasp_ring_buffer/src/lib.rs in="impl:<S> Bounded<S>" name=push ret=r label=Bounded::push
 //@spec
         requires old(self).wf(),
         ensures
@@ -306,7 +308,7 @@ pub trait SliceMut: Slice {
         proof { if self.len < self.cap() { lemma_widx(self.start as int, self.len as int, self.cap()); } }
 //@end
 
-//@fn file=dasp_ring_buffer/src/lib.rs in="impl:<S> Bounded<S>" name=pop ret=r
+//@fn file=dasp_ring_buffer/src/lib.rs in="impl:<S> Bounded<S>" name=pop ret=r label=Bounded::pop
 //@spec
         requires old(self).wf(),
         ensures
@@ -319,7 +321,7 @@ pub trait SliceMut: Slice {
         broadcast use lemma_widx;
 //@end
 
-//@fn file=dasp_ring_buffer/src/lib.rs in="impl:<S> Bounded<S>" name=from_raw_parts ret=r rules=R-assert
+//@fn file=dasp_ring_buffer/src/lib.rs in="impl:<S> Bounded<S>" name=from_raw_parts ret=r rules=R-assert label=Bounded::from_raw_parts
 //@spec
         ensures r.wf(), r.start == start, r.len == len, r.data == data,
 //@entry
